@@ -147,12 +147,148 @@ def controlling_true(b, tm, block):
     return out
 
 
+def _scan_chain_form(F, b, tm, push, cand, sol):
+    """the scan over the accepted routes spelled as a lazy chain whose verdict guards the push:
+        `solution.iter().map(|r| -> Result<bool> { Ok(duplicate(cand, r) || similar(cand, r)?) })
+                 .find(|t| !matches!(t, Ok(false))).unwrap_or(Ok(false))?`
+    read as: the mapped closure yields `duplicate || similar` (the similarity Err leaves it as Err), the predicate stops at the
+    first element that is not Ok(false), an exhausted scan gives Ok(false), and the push is reached only when the result is
+    false.  Returns "n/a" when this shape is not used, None when it decides the scan, otherwise what is wrong."""
+    DUP = K + "single_via_paths_algorithm::test_id_similarity"
+    SIM = RSF + "::test_similarity"
+    OKF = ("agg", "std::result::Result", "Ok", (("0", ("const", "bool", False)),))
+    hit = None
+    for sbb, t, truth in controlling(b, tm, push.bb):
+        if t[0] == "call" and re.search(r"Option::<T>::unwrap_or$", t[1].split("{")[0]) and len(t[2]) == 2 and contains(t, lambda q: q[0] == "closure"):
+            hit = (sbb, t, truth)
+    if hit is None:
+        return "n/a"
+    sbb, t, truth = hit
+    if truth is not False:
+        return "the push is reached when the scan's verdict is true"
+    fnd, dflt = t[2]
+    if clean(dflt) != clean(OKF):
+        return "an exhausted scan does not yield Ok(false): %s" % short(dflt)[:80]
+    raw = [dt for s_, dt, names, _ in switches(b, tm) if s_ == sbb]
+    if not raw or not contains(raw[0], lambda q: q[0] == "call" and q[1].endswith("::branch")):
+        return "the Err of the scan is not propagated with `?`"
+    if not (fnd[0] == "call" and itm(fnd[1], "find") and len(fnd[2]) == 2 and fnd[2][1][0] == "closure" and fnd[2][1][1] in F.bodies):
+        return "the verdict is not taken by Iterator::find over the mapped tests"
+    mp, pcl = fnd[2]
+    if not (mp[0] == "call" and itm(mp[1], "map") and len(mp[2]) == 2 and mp[2][1][0] == "closure" and mp[2][1][1] in F.bodies):
+        return "the tests are not produced by Iterator::map over the accepted routes"
+    src, kcl = mp[2]
+    if not contains(clean(src), lambda q: q == sol) or [x for x in calls_in(src) if re.search(r"Iterator>?::(take|skip|filter|step_by|rev|take_while|skip_while|filter_map)$", x[1].split("{")[0])]:
+        return "the scan does not visit every accepted route: %s" % short(src)[:100]
+    # ---- the mapped closure: Ok(duplicate || similar), Err of the similarity test kept
+    kb = F.bodies[kcl[1]]
+    caps = tuple(kcl[2])
+    def sub(x):
+        def f(q):
+            if q[0] == "field" and q[1] == ("arg", 1) and str(q[2]).isdigit() and int(q[2]) < len(caps):
+                return caps[int(q[2])]
+            return None
+        return clean(rewrite(x, f))
+    ELEM = ("arg", 2)
+    targ = [i_ for i_ in range(1, b.argc + 1) if "RouteSimilarityFunction" in b.locals[i_]["ty"]]
+    siarg = [i_ for i_ in range(1, b.argc + 1) if b.locals[i_]["ty"].endswith("SearchInstance")]
+    def is_dup(q):
+        q = sub(q)
+        return q[0] == "call" and q[1] == DUP and set(q[2]) == {cand, ELEM}
+    def is_sim(q):
+        q = sub(q)
+        if not (q[0] == "call" and q[1] == SIM and len(q[2]) == 4 and targ and siarg):
+            return False
+        a = q[2]
+        return a[0] == ("arg", targ[0]) and a[3] == ("arg", siarg[0]) and contains(a[1], lambda z: z == cand) and contains(a[2], lambda z: z == ELEM)
+    try:
+        krows = [r for r in table(kb, max_paths=20000) if r.end == "return"]
+    except TooManyPaths:
+        return "unreadable test closure"
+    n_ok = n_err = 0
+    for r in krows:
+        ret = nosite(deep_strip(r.ret)) if r.ret is not None else None
+        if ret is not None and ret[0] == "call" and ret[1].endswith("::from_residual"):
+            if not any(contains(clean(k), is_sim) and v in ("Break", "Err") for k, v in r.sel.items()):
+                return "the test closure leaves with an Err that is not the similarity test's"
+            n_err += 1
+            continue
+        if not (ret is not None and ret[0] == "agg" and ret[2] == "Ok" and len(ret[3]) == 1):
+            return "the test closure returns something other than Ok(verdict): %s" % short(ret)[:80]
+        v = ret[3][0][1]
+        D = S = None
+        for bt, l in r.bools:
+            if is_dup(bt):
+                D = cond_truth(l)
+            elif is_sim(bt):
+                S = cond_truth(l)
+        for d_ in (True, False) if D is None else (D,):
+            for s_ in (True, False) if S is None else (S,):
+                if v[0] == "const" and v[1] == "bool":
+                    got = v[2]
+                elif is_dup(v):
+                    got = d_
+                elif is_sim(v):
+                    got = s_
+                else:
+                    return "the verdict of the test closure is not built from the duplicate and similarity tests: %s" % short(v)[:80]
+                if got != (d_ or s_):
+                    return "the test closure does not yield duplicate || similar (duplicate=%s similar=%s gives %s)" % (d_, s_, got)
+        n_ok += 1
+    if n_ok == 0 or n_err == 0:
+        return "the test closure has no Ok / no Err exit"
+    if not any(any(is_dup(bt) for bt, _ in r.bools) or (r.ret is not None and contains(nosite(deep_strip(r.ret)), is_dup)) for r in krows):
+        return "no exact-duplicate test of (candidate, accepted route) in the scan"
+    if not any(contains(clean(k), is_sim) for r in krows for k in r.sel):
+        return "no similarity test of (candidate, accepted route) in the scan"
+    # ---- the predicate: true exactly for Err and Ok(true)
+    pb = F.bodies[pcl[1]]
+    def ev(x):
+        x = nosite(deep_strip(x))
+        if x[0] == "const" and x[1] == "bool":
+            return x[2]
+        if x[0] == "un" and x[1] == "Not":
+            y = ev(x[2])
+            return None if y is None else (not y)
+        return None
+    try:
+        prows = [r for r in table(pb, max_paths=2000) if r.end == "return"]
+    except TooManyPaths:
+        return "unreadable find predicate"
+    seen = set()
+    for r in prows:
+        cls = None
+        for k, v in r.sel.items():
+            if clean(k) != ("arg", 2):
+                continue
+            names = set(v[1]) if isinstance(v, tuple) else {v}
+            if names == {"Err"}:
+                cls = "err"
+            elif names == {"Ok"}:
+                bl = [cond_truth(l) for bt, l in r.bools if clean(bt) == ("arg", 2)]
+                cls = ("ok", bl[0]) if len(bl) == 1 else None
+        got = ev(r.ret) if r.ret is not None else None
+        if cls is None or got is None:
+            return "unreadable find predicate (one of its paths is not decided by Err / Ok(true) / Ok(false))"
+        want = cls != ("ok", False)
+        if got != want:
+            return "the find predicate %s an element that is %s" % ("stops at" if got else "passes over", "Err" if cls == "err" else "Ok(%s)" % str(cls[1]).lower())
+        seen.add(cls)
+    if seen != {"err", ("ok", True), ("ok", False)}:
+        return "the find predicate does not decide Err, Ok(true) and Ok(false)"
+    return None
+
+
 def _scan_accepted(ctx, F, b, tm, push, cand, sol, flag, false_blocks, gsw):
     """the candidate is rejected exactly when some accepted route is an exact duplicate of it or too similar to it: the scan over
     the accepted routes read turn by turn, in `run` or in a helper extracted from it.  Returns None or what is wrong."""
     DUP = K + "single_via_paths_algorithm::test_id_similarity"
     SIM = RSF + "::test_similarity"
     sims = [c for c in b.calls_deep(loops=True) if c.callee == SIM]
+    if len(sims) == 0 and flag is None:
+        ch = _scan_chain_form(F, b, tm, push, cand, sol)
+        if ch != "n/a":
+            return ch
     if len(sims) != 1:
         return "expected one similarity test, found %d" % len(sims)
     sim = sims[0]
